@@ -88,12 +88,34 @@ def g2(led, rid, ctx):
               "mapped_clause drops or merges literals (%s): the solver receives a different clause "
               "than the file states" % (bad or other_mut))
     cl = f.closures
-    led.check(len(cl) == 1, rid, "one-closure", f.span, "", "expected one mapping closure")
+    from ..symexec import SymExec
+
+    class _Row:
+        def __init__(self, conds, ret):
+            self.conds, self.ret = conds, ret
+    rows = None
+    g = f
     if len(cl) == 1:
         g = cl[0]
-        # path TABLE of the mapping closure: code > 0 ↦ variables[|code| − 1], code < 0 ↦ ¬variables[|code| − 1]
-        from ..symexec import SymExec
-        paths = [pa for pa in SymExec(g, max_paths=64).run() if not pa.diverged and pa.ret is not None]
+        rows = [_Row(pa.conds, pa.ret) for pa in SymExec(g, max_paths=64).run() if not pa.diverged and pa.ret is not None]
+    elif not cl:
+        # loop form: `for code in clause { v.push(map(code)) }` — the pushed values are the rows
+        rows = []
+        pushes_per_path = set()
+        for pa in SymExec(f, max_paths=400, max_visits=2).run():
+            if pa.diverged:
+                continue
+            ps = [(c, a) for c, a, r in pa.calls if c.name == "push" and len(a) >= 2]
+            pushes_per_path.add(len(ps))
+            for c, a in ps:
+                rows.append(_Row(pa.conds, a[1]))
+        other = [c.name for c in f.calls if c.name in ("retain", "remove", "truncate", "pop", "dedup", "swap_remove", "drain", "clear")]
+        led.check(not other, rid, "maps-every-literal", f.span, "the vector is only pushed to",
+                  "mapped_clause modifies the mapped clause with %s" % other)
+    led.check(rows is not None, rid, "one-closure", f.span, "", "expected one mapping closure or one push loop")
+    if rows is not None:
+        # path TABLE of the mapping: code > 0 ↦ variables[|code| − 1], code < 0 ↦ ¬variables[|code| − 1]
+        paths = rows
         bad_sign = bad_index = None
         for pa in paths:
             sign = None
